@@ -118,5 +118,7 @@ structure Static (c : Cfg) : Prop where
     (t.cpc = .iter → t.q.prog.kind = .batch) ∧
     (t.cpc = .stopping → t.q.prog = .stopper none)
   seqP : ∀ t ∈ c.ths, t.isProd = true → seqOf t.q = []
+  endC : ∀ t ∈ c.ths, t.isProd = false → (t.cpc = .shutdown ∨ t.cpc = .fin) → t.q.pc = .done ∧ t.q.result = []
+  consE : ∀ t ∈ c.ths, t.isProd = false → t.emitted = [] ∧ t.pulled = []
 
 end MlModel.Piter
